@@ -56,6 +56,12 @@ func c11Faults() []faultKind {
 		{name: "store-member-on-number", mk: func() Expr { return &Paren{X: Asg(Mem(V("vnum"), "k"), N("1"))} }},
 		{name: "store-member-on-string", mk: func() Expr { return &Paren{X: Asg(Mem(V("vstr"), "k"), N("1"))} }},
 		{name: "store-member-on-bool", mk: func() Expr { return &Paren{X: Asg(Mem(V("vbool"), "k"), N("1"))} }},
+		// a member named like a method of the receiver's kind is still a member: storing it on an array / string / number fails
+		{name: "store-method-named-member-on-array", mk: func() Expr { return &Paren{X: Asg(Mem(V("varr"), "length"), N("5"))} }},
+		{name: "store-method-named-member-on-string", mk: func() Expr { return &Paren{X: Asg(Mem(V("vstr"), "upper"), N("1"))} }},
+		{name: "store-method-named-member-on-number", mk: func() Expr { return &Paren{X: Asg(Mem(V("vnum"), "floor"), S("f"))} }},
+		{name: "store-method-named-member-on-array-by-index-syntax", mk: func() Expr { return &Paren{X: Asg(Idx(V("varr"), S("push")), N("1"))} }},
+		{name: "store-below-method-named-member-on-string", mk: func() Expr { return &Paren{X: Asg(Mem(Mem(V("vstr"), "split"), "x"), N("1"))} }},
 		{name: "string-index-on-array-store", mk: func() Expr { return &Paren{X: Asg(Idx(V("varr"), S("k")), N("1"))} }},
 		{name: "bad-escape", mk: func() Expr { return S("\\q") }, selfCont: true},
 		{name: "unknown-dollar-variable", mk: func() Expr { return V("$nope") }, selfCont: true},
